@@ -1145,7 +1145,7 @@ def c16(ck):
                 bad += 1
                 ck.report("features-" + fs, reason[0], reason[1], {"case": c, "featset": fs, "implementation_output": io, "model_output": mo,
                                                                     "replay_cmd": "echo '%s' | build/target-%s/debug/verif-harness ses" % (c, fs)},
-                          decisive=reason[0] != "diff")
+                          decisive=True)  # the property itself is stated relative to the reference model configured the same way
         ck.count("features-" + fs, len(ses), nontriv, sample=ses[0][:200])
     return ck.finish(trusted=TB_COMMON, rule="the harness is built under all eight subsets of {history, autocomplete, help} (macros on); the same sessions (random raw sessions, help-shaped "
                      "lines, Tab, Up/Down, derived command sets with --help inside invocations) run on each build and on the model configured with the same feature record; direct oracles: "
